@@ -98,6 +98,13 @@ class _ReqModel(_pyd.BaseModel):
     uid: Optional[_uuid.UUID] = None
 
 
+@__import__("dataclasses").dataclass
+class _Unit:
+    """Annotated[...] metadata of an application (eq without frozen: instances are not hashable)."""
+
+    name: str
+
+
 class _PlainCls:
     """A plain class: pydantic cannot build a schema for it (annotation of a task parameter)."""
 
@@ -293,7 +300,11 @@ class ScriptedBroker(AsyncBroker):
                     ackf.verif_d = info["d"]
                 except AttributeError:
                     pass
-                payload = AckableMessage(data=payload, ack=ackf)
+                if info.get("ack_subclass") or (sc.spec.get("ack_subclass") and info["d"] % 2):
+                    # the broker's own message class (a delivery tag next to the payload)
+                    payload = _TaggedMessage(data=payload, ack=ackf, delivery_tag=info["d"])
+                else:
+                    payload = AckableMessage(data=payload, ack=ackf)
             sc.trace.add("yield", info["d"], tok=info["tok"], mk=info["kind"])
             yield payload
             del payload
@@ -374,6 +385,12 @@ class MonInMemoryBroker(InMemoryBroker):
         payload.verif_d = d
         sc.trace.add("yield", d, tok=message.task_id, mk="valid")
         await super().kick(message.model_copy(update={"message": payload}))
+
+
+class _TaggedMessage(AckableMessage):
+    """What a broker may hand out: a subclass of AckableMessage with fields of its own."""
+
+    delivery_tag: int = 0
 
 
 class TBytes(bytes):
@@ -770,6 +787,11 @@ def build_functions(sc: Scenario, broker: AsyncBroker) -> None:
         params = ["tok"]
         if ts.get("plain_param"):
             params.append("obj: _PlainCls = None")
+        if ts.get("annot_param"):
+            # Annotated with metadata of the application's own (a plain dataclass instance: not hashable)
+            params.append("w: Annotated[float, _Unit('kg')] = None")
+            ns["Annotated"] = __import__("typing").Annotated
+            ns["_Unit"] = _Unit
         if ts.get("model_param"):
             params.append("req: _ReqModel = None")
         strict = bool(ts.get("strict_sig"))  # no *args/**kwargs: a wrongly resolved call raises TypeError
@@ -1137,7 +1159,8 @@ def _set_wire_format(broker: Any, how: Optional[str], saved: Optional[Tuple[Any,
 DEFAULT_TASKS = {"t_async": {"fn": "async"}, "t_sync": {"fn": "sync"}, "t_model": {"fn": "async", "model_param": True},
                  "t_ctx": {"fn": "async", "ctx": True},
                  "t_asyncified": {"fn": "async", "asyncified": True},
-                 "t_plain": {"fn": "async", "plain_param": True}, "t_plain_sync": {"fn": "sync", "plain_param": True}}
+                 "t_plain": {"fn": "async", "plain_param": True}, "t_plain_sync": {"fn": "sync", "plain_param": True},
+                 "t_annot": {"fn": "async", "annot_param": True}}
 
 
 class RunResult:
